@@ -1,4 +1,5 @@
 import AasVerif.Lemmas.JsonSchemaLookup
+import AasVerif.Lemmas.JsonSchemaTighten
 /-!
 # C12 — JSON Schema enforces every inferred constraint
 
@@ -206,6 +207,35 @@ theorem inheritable_property_enforced (defs : Defs) {c : Cls} {k : Text} {s : Sc
     ¬ Valid defs s (.obj kvs) :=
   fun hv => hbad (inheritable_own_property defs h hnd hmem hown hnm hd hv v hl)
 
+/-- **tightening steps are sound**: what the parent imposes on the top node (`other`) together with
+the steps the child's definition adds (`tightening that other`, which did not crash) implies the child's
+full constraint (`that`), for every shape of value. -/
+theorem tightening_steps_sound {that other t : Cons} (h : tightening that (some other) = .ok t)
+    (sh : Shape) (j : Json) (ho : TransSpec sh other j) (ht : TransSpec sh t j) : TransSpec sh that j :=
+  tightening_sound h sh j ho ht
+
+/-- **the merged constraint of an inherited property is enforced** (one parent step): `q` is the
+parent's own declaration of the property, `p` the child's inherited view (`p.parents = [q.ty.cons]`,
+same shape — what the wire form records); if the member value breaks the child's FULL top-node
+constraint `cs` (own class ∧ ancestor, as merged by the inference), the child's definition does not
+accept the object: the parent's part is enforced through the `allOf` reference, the child's tightening
+through its own `properties`. -/
+theorem inherited_constraint_enforced (defs : Defs) {c par : Cls} {k kp : Text} {s sp : Schema} {i : Inh}
+    (h : concreteDefinition c = .ok (k, s)) (hleaf : c.cdesc = []) (hi : i ∈ c.inh)
+    (hpar : inheritableDefinition par = .ok (kp, sp)) (hname : i.refName = kp)
+    (hunique : ∀ s', lookup kp defs = some s' → s' = sp)
+    (hndc : (c.props.map (·.name)).Nodup) (hnmc : ∀ p ∈ c.props, p.name ≠ modelTypeKey)
+    (hndp : (par.props.map (·.name)).Nodup)
+    {p q : Prp} (hp : p ∈ c.props) (hpown : p.own = false)
+    (hq : q ∈ par.props) (hqown : q.own = true) (hqn : q.name = p.name)
+    (hshape : q.ty.shape = p.ty.shape) (hparents : p.parents = [q.ty.cons])
+    {sq : Schema} (hd : defineType q.ty = .ok sq)
+    {kvs : List (Text × Json)} {v : Json} (hl : lookup p.name kvs = some v)
+    {cs : Cons} (hcs : p.ty.cons = some cs) (hbad : ¬ TransSpec p.ty.shape cs v) :
+    ¬ Valid defs s (.obj kvs) :=
+  fun hv => hbad (JsonSchema.inherited_constraint_enforced defs h hleaf hi hpar hname hunique hndc hnmc hndp
+    hp hpown hq hqown hqn hshape hparents hd hv hl cs hcs)
+
 /-! ## End to end: the generated `definitions` object
 
 The look-up hypotheses are discharged for `defs = generate mm` (`Lemmas/JsonSchemaLookup`: keys are
@@ -243,6 +273,33 @@ theorem generated_schema_enforces_parent (mm : MM) (defs : Defs) (h : generate m
   rintro ⟨s', hs', hv⟩
   cases hs'
   refine parent_property_enforced defs hs hleaf hi hsp (hname.trans hkp.symm) ?_ hnd hmem hown hnm hd hl hbad hv
+  intro s'' hs''
+  rw [hlkp] at hs''
+  cases hs''
+  rfl
+
+/-- …or the MERGED constraint (own class ∧ direct parent) of an inherited property -/
+theorem generated_schema_enforces_inherited (mm : MM) (defs : Defs) (h : generate mm = .ok defs)
+    {c par : Cls} (hc : OurType.cls c ∈ mm.types) (hpar : OurType.cls par ∈ mm.types)
+    (hleaf : c.cdesc = []) (hconc : c.abstract = false) (hdesc : par.cdesc ≠ [])
+    {i : Inh} (hi : i ∈ c.inh)
+    (hname : i.refName = (if par.abstract then par.mt else sfx par.mt "_abstract"))
+    (hndc : (c.props.map (·.name)).Nodup) (hnmc : ∀ p ∈ c.props, p.name ≠ modelTypeKey)
+    (hndp : (par.props.map (·.name)).Nodup)
+    {p q : Prp} (hp : p ∈ c.props) (hpown : p.own = false)
+    (hq : q ∈ par.props) (hqown : q.own = true) (hqn : q.name = p.name)
+    (hshape : q.ty.shape = p.ty.shape) (hparents : p.parents = [q.ty.cons])
+    {sq : Schema} (hd : defineType q.ty = .ok sq)
+    {kvs : List (Text × Json)} {v : Json} (hl : lookup p.name kvs = some v)
+    {cs : Cons} (hcs : p.ty.cons = some cs) (hbad : ¬ TransSpec p.ty.shape cs v) :
+    ¬ Valid defs (refTo c.mt) (.obj kvs) := by
+  obtain ⟨s, hs, hlk⟩ := generate_leaf_lookup mm defs h hc hleaf hconc
+  obtain ⟨kp, sp, hsp, hkp, hlkp⟩ := generate_inheritable_lookup mm defs h hpar hdesc
+  rw [valid_ref_iff, hlk]
+  rintro ⟨s', hs', hv⟩
+  cases hs'
+  refine inherited_constraint_enforced defs hs hleaf hi hsp (hname.trans hkp.symm) ?_ hndc hnmc hndp
+    hp hpown hq hqown hqn hshape hparents hd hl hcs hbad hv
   intro s'' hs''
   rw [hlkp] at hs''
   cases hs''
@@ -303,7 +360,7 @@ example : ∃ s, concreteDefinition lonely = .ok (ascii "Lonely", s) ∧
 def rootC : Cls := ⟨ascii "Root", true, true, [],
   [⟨ascii "name", false, true, .prim .str (some ⟨some ⟨none, some 3⟩, none⟩), []⟩], [ascii "Leaf"]⟩
 def leafC : Cls := ⟨ascii "Leaf", false, true, [⟨ascii "Root", false, true⟩],
-  [⟨ascii "name", false, false, .prim .str (some ⟨some ⟨none, some 3⟩, none⟩), [some ⟨some ⟨none, some 3⟩, none⟩]⟩], []⟩
+  [⟨ascii "name", false, false, .prim .str (some ⟨some ⟨some 2, some 3⟩, none⟩), [some ⟨some ⟨none, some 3⟩, none⟩]⟩], []⟩
 def twoDefs : Defs := match generate ⟨[.cls rootC, .cls leafC]⟩ with | .ok d => d | _ => []
 
 /-- the hypotheses of `parent_property_enforced` are met by a two-class hierarchy; the parent's bound is
@@ -314,7 +371,9 @@ example : (match concreteDefinition leafC, inheritableDefinition rootC with
       (refsSchema s).contains (ascii "Root") &&
       validates twoDefs 12 s (.obj [(ascii "name", .str (ascii "abc")), (modelTypeKey, .str (ascii "Leaf"))]) == some true &&
       validates twoDefs 12 s (.obj [(ascii "name", .str (ascii "abcd")), (modelTypeKey, .str (ascii "Leaf"))]) == some false &&
-      validates twoDefs 12 s (.obj [(ascii "name", .str (ascii "abc"))]) == some false
+      validates twoDefs 12 s (.obj [(ascii "name", .str (ascii "abc"))]) == some false &&
+      -- the child's tightening (`len ≥ 2`, merged with the parent's `len ≤ 3`)
+      validates twoDefs 12 s (.obj [(ascii "name", .str (ascii "a")), (modelTypeKey, .str (ascii "Leaf"))]) == some false
     | _, _ => false) = true := by decide
 
 end AasVerif.Props.C12
